@@ -1,6 +1,6 @@
 (* Property C01 — instruction encoding is exactly the prescribed bit layout.
    This file contains only statements, `exact`, and Print Assumptions. *)
-From BA Require Import Base Bits BitsSpec BitsProofs.
+From BA Require Import Base Bits BitsSpec BitsProofs Expr Subst Layout Program Match MatchProofs.
 
 (* Packing any non-empty list of fields (every width >= 1, every value within the signed-or-unsigned
    range of its width, any mix of endianness and alignment flags) yields exactly the specified bit
@@ -16,3 +16,23 @@ Theorem C01_alignment : forall pos : Z,
   0 <= pos -> (pos + align_pad pos true) mod 8 = 0 /\ 0 <= align_pad pos true < 8 /\ align_pad pos false = 0.
 Proof. exact aligned_field_on_byte_boundary. Qed.
 Print Assumptions C01_alignment.
+
+(* the documented field order: prefix-positioned operand codes (mirrored operand order), the opcode, suffix-positioned
+   operand codes in operand order, the opcode suffix, then the operand arguments in operand order; the reverse options
+   reverse exactly the operand-code groups or the argument group *)
+Theorem C01_field_order : forall m base suf,
+  generate_bytecode m base suf
+  = (if ms_rev_code m then prefix_codes (ms_ops m) else rev (prefix_codes (ms_ops m)))
+    ++ [base]
+    ++ (if ms_rev_code m then rev (suffix_codes (ms_ops m)) else suffix_codes (ms_ops m))
+    ++ (match suf with Some s => [s] | None => [] end)
+    ++ (if ms_rev_arg m then rev (arguments (ms_ops m)) else arguments (ms_ops m)).
+Proof. exact field_order. Qed.
+Print Assumptions C01_field_order.
+
+Theorem C01_reverse_arguments_only : forall ops rc base suf,
+  exists front,
+    generate_bytecode {| ms_ops := ops; ms_rev_arg := false; ms_rev_code := rc |} base suf = front ++ arguments ops
+    /\ generate_bytecode {| ms_ops := ops; ms_rev_arg := true; ms_rev_code := rc |} base suf = front ++ rev (arguments ops).
+Proof. exact reverse_arg_only_args. Qed.
+Print Assumptions C01_reverse_arguments_only.
